@@ -128,7 +128,13 @@ def rule_trust(ctx):
             def fa(itp, recv, a, k, env, d, e):
                 r_ = answer()
                 return ("list", [r_]) if r_ is not None else ("list", [])
-            it.hooks.update({"ext:*.fetchone": fo, "anymethod:fetchone": fo, "ext:*.fetchall": fa, "anymethod:fetchall": fa})
+            def rows_of(itp, v):
+                # iterating the cursor (what execute() returned, or the cursor it was called on) gives the rows
+                if (label(v) and label(v).split(".")[-1] in ("execute()", "cursor()")) or (v[0] == "fn" and v[1] in ("execute", "cursor")):
+                    r_ = answer()
+                    return [r_] if r_ is not None else []
+                return None
+            it.hooks.update({"ext:*.fetchone": fo, "anymethod:fetchone": fo, "ext:*.fetchall": fa, "anymethod:fetchall": fa, "iterate": rows_of})
             try:
                 res["ret"] = it.call_function(fn, cls, store, [who, key], {}, depth=0)
             except _Raise as r:
